@@ -21,10 +21,18 @@ From Sakura.Proofs Require Import LayoutP.
 Open Scope list_scope.
 Open Scope Z_scope.
 
-(* LOOP is the loop of lex *)
+(* LOOP is the loop of lex.  lexer::lex first runs lex_preprocess over the whole text (LexCore.lex_pre: comments
+   skipped, a word read at every capital letter, stop at END / End); a text in which that scan meets the word
+   FUNCTION / Function defines a user function and is outside the pipeline model (Unsupported) - whatever the main
+   loop would do with it, EVEN WHEN THE WORD STANDS IN A `#` LINE COMMENT (the scan does not know that comment form).
+   The whole-lexer statements below therefore carry the hypothesis lex_pre src = false. *)
 Theorem C18_loop_is_lex : forall (ls : lexstate) (src : list Z) (ln : Z),
-  lex ls src ln = LOOP (length src) (S (length src)) ls src ln false [TLineNo ln].
+  lex ls src ln
+  = if lex_pre src then Unsupported U_FUNCTION else LOOP (length src) (S (length src)) ls src ln false [TLineNo ln].
 Proof. exact lex_unfold. Qed.
+Theorem C18_loop_is_lex_plain : forall (ls : lexstate) (src : list Z) (ln : Z), lex_pre src = false ->
+  lex ls src ln = LOOP (length src) (S (length src)) ls src ln false [TLineNo ln].
+Proof. exact lex_unfold_plain. Qed.
 
 (* ' ', TAB, CR, '|', ';', the wide blanks U+3000, U+2002..U+200B, U+FEFF and the full-width '|' ';':
    consumed, no token, nothing else changes *)
@@ -130,6 +138,7 @@ Theorem C18_notes_layout_partial : forall (its1 its2 : list litem) (p1 p2 : npro
   forallb litem_ok its1 = true -> forallb is_layout its1 = true -> nprog_ok p1 [] (ln + items_lines its1) = true ->
   forallb litem_ok its2 = true -> forallb is_layout its2 = true -> nprog_ok p2 [] (ln + items_lines its2) = true ->
   map (fun xi => snote_tok (fst xi)) p1 = map (fun xi => snote_tok (fst xi)) p2 ->
+  lex_pre (print_items its1 ++ print_nprog p1) = false -> lex_pre (print_items its2 ++ print_nprog p2) = false ->
   exists t1 t2, lex ls (print_items its1 ++ print_nprog p1) ln = Ok (t1, ls)
              /\ lex ls (print_items its2 ++ print_nprog p2) ln = Ok (t2, ls)
              /\ erase_lineno t1 = erase_lineno t2
@@ -148,8 +157,13 @@ Example C18_notes_example :
   print_nprog ex_p1 = zs "c4 d+8.|e" /\
   print_items [LBlock [120]] ++ print_nprog ex_p2
   = zs "/*x*/c4" ++ [10] ++ zs "// ^" ++ [10] ++ zs "# c" ++ [10] ++ zs "d+8.  ;/* x" ++ [10] ++ zs "*/" ++ [12288] ++ zs "#-" ++ [10; 65349; 13; 10] /\
-  map (fun xi => snote_tok (fst xi)) ex_p1 = map (fun xi => snote_tok (fst xi)) ex_p2.
+  map (fun xi => snote_tok (fst xi)) ex_p1 = map (fun xi => snote_tok (fst xi)) ex_p2 /\
+  (lex_pre (print_nprog ex_p1) = false) /\ (lex_pre (print_items [LBlock [120]] ++ print_nprog ex_p2) = false).
 Proof. repeat split; vm_compute; reflexivity. Qed.
+(* the hypothesis is needed: the scan of lex_preprocess does not know the `#` comment forms *)
+Example C18_function_in_hash_comment :
+  (lex_pre (zs "c # FUNCTION A" ++ [10] ++ zs "d") = true) /\ (lex_pre (zs "c // FUNCTION A" ++ [10] ++ zs "d") = false).
+Proof. split; vm_compute; reflexivity. Qed.
 
 (* non-vacuity: a layout with all item kinds, and the theorem's equation evaluated on it *)
 Definition ex_layout : list litem :=
@@ -166,6 +180,7 @@ Example C18_example :
 Proof. repeat split; try (vm_compute; reflexivity); eexists; vm_compute; reflexivity. Qed.
 
 Print Assumptions C18_loop_is_lex.
+Print Assumptions C18_loop_is_lex_plain.
 Print Assumptions C18_separator_step.
 Print Assumptions C18_newline_step.
 Print Assumptions C18_get_token.
